@@ -2,4 +2,5 @@
 #include <crab/domains/split_dbm.hpp>
 using namespace simd;
 using D = split_dbm_domain<z_number, varname_t, G_big>;
-SIM_REGISTER_DOMAIN(zones_sdbm_big, D, "zones_sdbm_big", CAP_EXACT_EXPORT)
+SIM_REGISTER_DOMAIN(zones_sdbm_big, D, "zones_sdbm_big",
+                    CAP_EXACT_EXPORT | CAP_BACKWARD)
